@@ -37,17 +37,124 @@ def _wexpand(task):
     return _srv.expand(hist, probes, echo)
 
 
+_ref = None
+_cfg = None
+
+
+def _winit2(exe, tracedir, flags, counter, ref, cfg):
+    global _ref, _cfg
+    _winit(exe, tracedir, flags, counter)
+    _ref, _cfg = ref, cfg
+
+
+def _weval(task):
+    """Expands one state in a worker: probes the whole alphabet and evaluates the oracle there.
+    Returns plain data; the parent only merges, deduplicates and reports."""
+    s, hist, disp, tclk = task
+    ref, cfg = _ref, _cfg
+    prefix = cfg["prefix"]
+    a = ref.alphabet(s)
+    hres, pres = _srv.expand(prefix + hist, [ev for (_, ev) in a], False)
+    out = {"viol": [], "succ": [], "soft": [], "outc": set(), "err": None, "probes": 0, "accepted": 0, "refused": 0,
+           "soft_mismatch": 0, "display_checks": 0, "finish_probes": 0, "learn": None}
+    if not hres or not hres.get("ok"):
+        out["err"] = "history replay diverged (nondeterminism?): %r on %r" % (hres, short_hist(hist))
+        return out
+
+    def viol(kind, label, ev, detail, st):
+        out["viol"].append((kind, label, hist, ev, detail, repr(st)))
+
+    def check_display(s2, d2, ev, label):
+        if hasattr(ref, "learn"):
+            ref.learn(s2, d2)
+        exp = ref.display(s2)
+        out["display_checks"] += len(exp)
+        for k, v in exp.items():
+            got = d2.get(k, 0)
+            if (got not in v) if isinstance(v, (tuple, set, frozenset)) else (got != v):
+                viol("display", (label, k), ev, "%s row %d type %d shows %d, reference says %s" % (k[0], k[1], k[2], got, v), s2)
+                return
+    for (label, ev), r in zip(a, pres):
+        out["probes"] += 1
+        if r is None:
+            out["err"] = "no reply for probe %s" % (label,)
+            return out
+        expect, s2, why = ref.step(s, label)
+        out["outc"].add((str(label).split("(")[0] if isinstance(label, str) else str(label[0]), r.status, expect))
+        if r.crashed:
+            viol("crash", label, ev, "emulator died with %s: %s" % (r.code, r.msg), s)
+            continue
+        if isinstance(ev, Fin):
+            out["finish_probes"] += 1
+            if expect == "ok" and not r.ok:
+                viol("finish-refused", label, ev, "expected success (%s); got: %s" % (why, r.msg), s)
+            elif expect == "fail" and r.ok:
+                viol("finish-accepted", label, ev, "expected failure (%s) but emulation finished ok" % why, s)
+            fh = cfg.get("finish_hook")
+            if fh is not None:
+                for kind, text in fh(s, hist, ev, r, expect):
+                    viol(kind, label, ev, text, s)
+            continue
+        if r.ok:
+            out["accepted"] += 1
+        else:
+            out["refused"] += 1
+        if expect == "ok" and not r.ok:
+            viol("refused-legal", label, ev, "model: legal (%s); emulator: %s" % (why, r.msg), s)
+            continue
+        if expect == "fail" and r.ok:
+            viol("accepted-illegal", label, ev, "model: illegal (%s); emulator accepted it" % why, s)
+            continue
+        if expect == "soft":
+            legal = s2 is not None
+            if legal != r.ok:
+                out["soft_mismatch"] += 1
+                if len(out["soft"]) < 2:
+                    out["soft"].append({"history": short_hist(hist), "event": ev.short(), "model_enabled": legal,
+                                        "emulator": r.status, "msg": r.msg})
+        if not r.ok or s2 is None:
+            continue
+        dt = ev[1]
+        t2 = tclk + dt if hist else 0
+        d2 = dict(disp)
+        bad_time = None
+        for (n, row, tm, ty, val) in r.lines:
+            d2[(n, row, ty)] = val
+            if tm != t2:
+                bad_time = (n, row, tm, ty, val)
+        if cfg["check_time"] and bad_time is not None:
+            viol("line-time", label, ev, "PRV line %r not stamped with the event time %d" % (bad_time, t2), s)
+        check_display(s2, d2, ev, label)
+        out["succ"].append((s2, ev, r.hash, d2, t2))
+    if hasattr(ref, "learn_map"):
+        out["learn"] = dict(ref.learn_map)
+    return out
+
+
 class ServerPool:
     def __init__(self, exe, tracedir, flags=(), workers=None):
         self.exe, self.tracedir, self.flags = exe, tracedir, list(flags)
-        workers = workers or NCPU
+        self.workers = workers or NCPU
         # one server in the parent for metadata (and small jobs)
         self.local = emusrv.EmuServer(exe, tracedir, flags)
+        self.pool = None
+        self._mode = None
+        self.meta = None     # {"spec":..., "require":..., "extra_meta":...} set by the check (for replay files)
+
+    def _ensure(self, mode, ref=None, cfg=None):
+        if self.pool is not None and self._mode == mode:
+            return
+        if self.pool is not None:
+            self.pool.terminate()
+            self.pool.join()
         ctx = multiprocessing.get_context("fork")
         counter = ctx.Value("i", 0)
-        self.pool = ctx.Pool(workers, initializer=_winit, initargs=(exe, tracedir, self.flags, counter))
-        self.workers = workers
-        self.meta = None     # {"spec":..., "require":..., "extra_meta":...} set by the check (for replay files)
+        if mode == "expand":
+            self.pool = ctx.Pool(self.workers, initializer=_winit, initargs=(self.exe, self.tracedir, self.flags, counter))
+        else:
+            self.pool = ctx.Pool(self.workers, initializer=_winit2,
+                                 initargs=(self.exe, self.tracedir, self.flags, counter, ref, cfg))
+        self._mode = mode
 
     def expand_many(self, tasks, echo=False):
         """tasks: list of (history, probes).  Returns list of (hres, [PRes])."""
@@ -55,13 +162,21 @@ class ServerPool:
             return []
         if len(tasks) == 1:
             return [self.local.expand(tasks[0][0], tasks[0][1], echo)]
+        self._ensure("expand")
         cs = max(1, min(16, len(tasks) // (self.workers * 4)))
         return self.pool.map_async(_wexpand, [(h, p, echo) for (h, p) in tasks], chunksize=cs).get(timeout=3600)
 
+    def eval_many(self, ref, cfg, tasks, key):
+        """tasks: list of (state, history, display, clock); oracle evaluated in the workers."""
+        self._ensure(("eval", key), ref, cfg)
+        cs = max(1, min(8, len(tasks) // (self.workers * 4)))
+        return self.pool.map_async(_weval, tasks, chunksize=cs).get(timeout=7200)
+
     def close(self):
         self.local.close()
-        self.pool.terminate()
-        self.pool.join()
+        if self.pool is not None:
+            self.pool.terminate()
+            self.pool.join()
 
 
 class Ref:
@@ -111,13 +226,14 @@ class Explorer:
         self.states_by_depth = []
         self.bind_depth = 2
         self.shallow = []      # histories of all states up to bind_depth (for the binding pass)
+        self.parallel = os.environ.get("VERIF_SERIAL_ORACLE") is None
 
     def _viol(self, kind, label, hist, probe, detail, state=None):
         prop = self.ref.attribute(kind, label)
         if self.report_props is not None and prop is not None and prop not in self.report_props:
             self.ctx.part(self.name, other_property_anomalies=1)
             return
-        pool_meta = getattr(self.pool, "meta", None) or getattr(getattr(self.pool, "pool", None), "meta", None)
+        pool_meta = getattr(self.pool, "meta", None) or (getattr(self.pool.pool, "meta", None) if hasattr(self.pool, "prefix") else None)
         prefix = getattr(self.pool, "prefix", [])
         replay = {"engine": "E3 emu_server", "walk": self.name, "tracedir_spec": getattr(self.ref, "spec", None), "system": pool_meta,
                   "prefix": [e.line() for e in prefix],
@@ -128,6 +244,87 @@ class Explorer:
                            replay, match={"kind": kind, "label": str(label), "walk": self.name})
 
     def run(self):
+        if self.parallel:
+            return self.run_parallel()
+        return self.run_serial()
+
+    def run_parallel(self):
+        """Same search as run_serial(), but probing *and* oracle evaluation happen in the worker
+        processes (the parent only deduplicates states and reports), so all cores are used."""
+        ctx, ref = self.ctx, self.ref
+        inner = self.pool.pool if hasattr(self.pool, "prefix") else self.pool
+        prefix = list(getattr(self.pool, "prefix", []))
+        cfg = {"prefix": prefix, "check_time": self.check_time, "finish_hook": self.finish_hook}
+        s0 = ref.init()
+        h0, _ = self.pool.local.expand([], [])
+        if not h0 or not h0.get("ok"):
+            raise InfraError("cannot get initial state from emu_server: %r" % (h0,))
+        disp0 = {}
+        for (n, row, tm, ty, val) in self.pool.local.init_lines:
+            disp0[(n, row, ty)] = val
+        seen = {(ref.key(s0), h0["hash"])}
+        model_seen = {ref.key(s0)}
+        frontier = [(s0, [], disp0, 0)]
+        depth = 0
+        self._check_display(s0, disp0, [], None, "init")
+        while frontier:
+            if self.max_depth is not None and depth > self.max_depth:
+                ctx.cap("%s: depth limit %d" % (self.name, self.max_depth))
+                break
+            results = inner.eval_many(ref, cfg, frontier, id(self))
+            nxt = []
+            for (s, hist, disp, tclk), out in zip(frontier, results):
+                self.stats["states"] += 1
+                if out["err"]:
+                    raise InfraError(out["err"])
+                for k in ("probes", "accepted", "refused", "soft_mismatch", "display_checks", "finish_probes"):
+                    self.stats[k] += out[k]
+                self.outcomes |= out["outc"]
+                for x in out["soft"]:
+                    if len(self.soft_samples) < 8:
+                        self.soft_samples.append(x)
+                if out["learn"] and hasattr(ref, "learn_map"):
+                    ref.learn_map.update(out["learn"])
+                for (kind, label, h, ev, detail, st) in out["viol"]:
+                    self._viol(kind, label, h, ev, detail, st)
+                for (s2, ev, hsh, d2, t2) in out["succ"]:
+                    k2 = (ref.key(s2), hsh)
+                    if k2 in seen:
+                        continue
+                    seen.add(k2)
+                    if ref.key(s2) in model_seen:
+                        self.stats["abstraction_splits"] += 1
+                    else:
+                        model_seen.add(ref.key(s2))
+                    nxt.append((s2, hist + [ev], d2, t2))
+                    if depth + 1 <= self.bind_depth:
+                        self.shallow.append(hist + [ev])
+                if ctx.too_many():
+                    break
+            self.states_by_depth.append(len(frontier))
+            depth += 1
+            frontier = nxt
+            if ctx.too_many():
+                break
+            if self.max_states is not None and len(seen) > self.max_states and frontier:
+                ctx.cap("%s: state cap %d reached at depth %d" % (self.name, self.max_states, depth))
+                break
+            if ctx.out_of_time(0.8) and frontier:
+                ctx.cap("%s: deadline reached at depth %d with %d states on the frontier" % (self.name, depth, len(frontier)))
+                break
+        self.stats["depth"] = depth
+        self.stats["model_states"] = len(model_seen)
+        self.stats["outcomes"] = len(self.outcomes)
+        self.model_seen = model_seen
+        ctx.add(states=len(seen), transitions=self.stats["probes"], evaluations=self.stats["probes"])
+        st = dict(self.stats)
+        st["states_by_depth"] = self.states_by_depth
+        st["soft_samples"] = self.soft_samples
+        st["distinct_outcomes"] = sorted(map(str, self.outcomes))[:60]
+        ctx.part(self.name, **st)
+        return self.stats
+
+    def run_serial(self):
         ctx, ref = self.ctx, self.ref
         s0 = ref.init()
         h0, _ = self.pool.local.expand([], [])
@@ -261,7 +458,7 @@ def bind_shallow(ctx, build, system, pool, explorer, tag, emu_flags=("-l",), lim
     cases = [prefix + h for h in explorer.shallow[:limit]]
     if not cases:
         return 0
-    inner = getattr(explorer.pool, "pool", explorer.pool)
+    inner = explorer.pool.pool if hasattr(explorer.pool, "prefix") else explorer.pool
     return binding_cases(ctx, build, system, inner, cases, tag, emu_flags=emu_flags)
 
 
